@@ -32,7 +32,6 @@ package main
 //@   ensures [C12:D8-parse-error] callres("parser.ParseFile", 0, 2) != 0 ==> result != nil && nfs() == 0 && ncalls("parser.WriteCodeToFile") == 0
 //@   ensures [C12:D8-diagnostics] callres("parser.ParseFile", 0, 2) == 0 && len(ptr(callres("parser.ParseFile", 0, 1), *model.BinaryModel).SyntaxErrors) > 0 ==> result != nil && ncalls("parser.WriteCodeToFile") == 0 && nfs() == 0
 //@   ensures [C12:D6-generated-from-resolved] result == nil ==> forall(p, 0, len(ptr(callres("parser.ParseFile", 0, 1), *model.BinaryModel).Packets), forall(i, 0, len(ptr(callres("parser.ParseFile", 0, 1), *model.BinaryModel).Packets[p].Fields), model.resolved(ptr(callres("parser.ParseFile", 0, 1), *model.BinaryModel), ptr(callres("parser.ParseFile", 0, 1), *model.BinaryModel).Packets[p].Fields[i])))
-//@   ensures [C12:D6-generated-from-resolved-inline] result == nil ==> forall(p, 0, len(ptr(callres("parser.ParseFile", 0, 1), *model.BinaryModel).Packets), forall(i, 0, len(ptr(callres("parser.ParseFile", 0, 1), *model.BinaryModel).Packets[p].Fields), model.inlineResolved(ptr(callres("parser.ParseFile", 0, 1), *model.BinaryModel), ptr(callres("parser.ParseFile", 0, 1), *model.BinaryModel).Packets[p].Fields[i])))
 //@   ensures [C16:compile-input] ncalls("parser.ParseFile") == 1 && callarg("parser.ParseFile", 0, 0) == input
 //@   ensures [C16:compile-lua] result == nil && outputs["lua"] != "" ==> ncalls("(parser.LuaWspGenerator).Generate") == 1 && callarg("(parser.LuaWspGenerator).Generate", 0, 1) == callres("parser.ParseFile", 0, 1) && called("parser.WriteCodeToFile", outputs["lua"], callres("(parser.LuaWspGenerator).Generate", 0, 0))
 //@   ensures [C16:compile-lua-off] outputs["lua"] == "" ==> ncalls("(parser.LuaWspGenerator).Generate") == 0
